@@ -628,7 +628,8 @@ static int cmd_batch(const Args &a) {
                 again = r1.str("end") == "wall_timeout" || r1.str("end") == "machinery";
             }
             if (again) {
-                MinResult mr = minimise_and_write(c, vc.prop, vc.sig, a.replay_dir, errdir, a.timeout_s * 4, 30, a.flavour);
+                // every re-execution of a genuine hang costs a full watchdog period: a handful of minimisation steps only
+                MinResult mr = minimise_and_write(c, vc.prop, vc.sig, a.replay_dir, errdir, a.timeout_s * 2, 6, a.flavour);
                 v.set("replay", mr.path).set("gate", mr.gate_ok ? "ok" : "fail").set("min_summary", mr.summary);
                 if (!mr.gate_ok) ++gate_fail;
             } else v.set("gate", "transient").set("min_summary", "watchdog limit exceeded once under load; the same case completed when re-executed alone");
